@@ -27,7 +27,10 @@ RULE = ("base runs of C06 with objective f1 + w*f2 (8 iterations); update functi
         "retained points and of the rewritten/later gradients (provenance search), has "
         "s.y > eps*y.y, the newest stored point is retained, and the next "
         "iterate equals (1e-8) the restart on the new objective from the callback state "
-        "taken right after the rewrite; non-trivial = rewrite applied with >= 1 stored "
+        "taken right after the rewrite; history letter: run interrupted after j in {1,2,3,5} "
+        "iterations and restarted with an update function redefining the objective at its "
+        "first call => next iterate equals (1e-8) the restart on the new objective from a "
+        "checkpoint rebuilt by the harness with the rewritten gradients; non-trivial = rewrite applied with >= 1 stored "
         "pair; distinct = distinct case")
 ASSUMPTIONS = [
     "the update function is called once before the first iteration (k=0) and once after "
@@ -68,6 +71,12 @@ def cases(tier, variants):
         for k in range(0, K):
             for rw in REWRITES:
                 yield dict(b, part="rw", k=k, rw=rw)
+        # history letter: the run is interrupted after j iterations and RESTARTED from
+        # that state with an update function whose first (pre-loop) call redefines the
+        # objective and rewrites the restored gradients
+        for j in (1, 2, 3, 5):
+            for rw in ("scale0.2", "scale5", "w0.2", "w5"):
+                yield dict(b, part="rwres", j=j, rw=rw)
         # letter: a stop criterion (target placed between the objective values of
         # iterations k-1 and k) fires at the very iteration of the rewrite
         for k in range(2, K):
@@ -171,6 +180,60 @@ def run(case):
             viol.append(V("identity_update_changes_callback_states", n1=len(s1), n2=len(s2)))
         return dict(viol=viol, outcome=f"ident|{a.message}",
                     nontrivial=core.case_hash(case) if ncall[0] >= 2 else None)
+    if part == "rwres":
+        from scipy.optimize import LbfgsInvHessProduct
+        j, rwn = case["j"], case["rw"]
+        ck = minimize_lbfgsb(x0=p.x0.copy(), fun=fun, jac=jac, ftol=-10.0,
+                             **dict(kw, maxiter=j))
+        if not H.stopped_by_maxiter(ck, j) or ck.hess_inv.sk.shape[0] == 0:
+            return dict(viol=[], outcome="rwres|no_restartable_state", stats={"skipped": 1})
+        sk = np.array(ck.hess_inv.sk, copy=True)
+        xk = np.array(ck.x, copy=True)
+        Xs = [a for a in (xk - np.cumsum(sk[::-1], axis=0)[::-1])][-case["maxcor"]:]
+
+        def switch():
+            if rwn.startswith("scale"):
+                sc[0] = float(rwn[5:])
+            else:
+                w[0] = float(rwn[1:])
+        calls = [0]
+
+        def upd0(x, f0, f0_old, grad, X, G):
+            calls[0] += 1
+            if calls[0] > 1:
+                return f0, f0_old, grad, G
+            switch()
+            return fun(x), fun(X[-1]) if len(X) else fun(x), jac(x), deque(jac(a) for a in X)
+        try:
+            ra = minimize_lbfgsb(x0=xk.copy(), fun=fun, jac=jac, ftol=-10.0,
+                                 checkpoint=copy.deepcopy(ck), update_fun_def=upd0,
+                                 **dict(kw, maxiter=j + 1))
+            # reference: restart on the new objective from a checkpoint holding the
+            # rewritten history
+            Gs = [jac(a) for a in Xs] + [jac(xk)]
+            yk2 = np.diff(np.array(Gs), axis=0)
+            sk2 = sk[-len(Xs):]
+            if any(not float(a @ b_) > EPS * float(b_ @ b_) for a, b_ in zip(sk2, yk2)):
+                return dict(viol=[], outcome="rwres|rewritten_pair_without_curvature",
+                            stats={"skipped": 1})
+            ck2 = copy.deepcopy(ck)
+            ck2.fun, ck2.jac = fun(xk), jac(xk)
+            ck2.hess_inv = LbfgsInvHessProduct(sk2, yk2)
+            rb = minimize_lbfgsb(x0=xk.copy(), fun=fun, jac=jac, ftol=-10.0, checkpoint=ck2,
+                                 **dict(kw, maxiter=j + 1))
+        except core.CaseTimeout:
+            raise
+        except Exception as e:
+            return dict(viol=[V("exception_after_rewrite_at_restart", exc=repr(e))],
+                        outcome="exception")
+        err = H.relerr(ra.x, rb.x)
+        if err > TOL:
+            viol.append(V("next_iterate_differs_from_restart_on_new_objective", err=err,
+                          at="rewrite at the first update call of a restarted run",
+                          npairs=int(sk2.shape[0])))
+        moved = not np.array_equal(rb.x, xk)
+        return dict(viol=viol, outcome=f"rwres|pairs{sk2.shape[0]}",
+                    nontrivial=core.case_hash(case) if moved else None)
     # ----- rewrite at update call k
     k = case["k"]
     EPS_ = case.get("eps_sy", EPS)
